@@ -17,3 +17,21 @@ PBT_PROPERTY(merge) {
     default: st ? c05::run_rec40_s(src, cfg) : c05::run_rec40_u(src, cfg); break;
     }
 }
+
+// SCALE classes (see gen_scale in C05_merge.hpp): up to ~1100 sequences (sizes next to powers of two), sequences of
+// several thousand elements, totals up to 1e5, merge lengths at the unguarded-phase boundary -1/+0/+1 of long inputs.
+// Same configuration selectors, same oracle.
+PBT_PROPERTY(merge_scale) {
+    c05::Cfg cfg;
+    int type = (int)src.weighted({2, 3, 3}); // int, rec8 (copy trees), rec40 (pointer trees)
+    cfg.entry = (int)src.range(0, 7);
+    cfg.alg = (int)src.range(0, 4);
+    cfg.desc = src.boolean();
+    cfg.scale = true;
+    const bool st = c05::entry_stable(cfg.entry);
+    switch (type) {
+    case 0: st ? c05::run_int_s(src, cfg) : c05::run_int_u(src, cfg); break;
+    case 1: st ? c05::run_rec8_s(src, cfg) : c05::run_rec8_u(src, cfg); break;
+    default: st ? c05::run_rec40_s(src, cfg) : c05::run_rec40_u(src, cfg); break;
+    }
+}
